@@ -87,3 +87,17 @@ pub assume_specification[ String::len ](s: &String) -> (r: usize)
         s@.len() <= r,
         r <= 4 * s@.len(),
         s.is_ascii() ==> r == s@.len();
+
+/// A2: `f64::round` / `trunc` / `floor` / `ceil` / `abs` are total functions of their argument (none
+/// is used on the pinned tree; stated so that a change that starts to massage numbers before
+/// printing or storing them stays decidable)
+pub uninterp spec fn f64_round(x: f64) -> f64;
+pub uninterp spec fn f64_trunc(x: f64) -> f64;
+pub uninterp spec fn f64_floor(x: f64) -> f64;
+pub uninterp spec fn f64_ceil(x: f64) -> f64;
+pub uninterp spec fn f64_abs(x: f64) -> f64;
+pub assume_specification[ f64::round ](x: f64) -> (r: f64) ensures r == f64_round(x);
+pub assume_specification[ f64::trunc ](x: f64) -> (r: f64) ensures r == f64_trunc(x);
+pub assume_specification[ f64::floor ](x: f64) -> (r: f64) ensures r == f64_floor(x);
+pub assume_specification[ f64::ceil ](x: f64) -> (r: f64) ensures r == f64_ceil(x);
+pub assume_specification[ f64::abs ](x: f64) -> (r: f64) ensures r == f64_abs(x);
